@@ -279,18 +279,29 @@ func NewController(kubeClient kubelib.Client, options Options) *Controller {
 	}
 
 	// Namespace annotation handler for traffic-distribution inheritance
-	// When namespace annotations change, reprocess all services in that namespace
+	// When the annotation services inherit changes, reprocess all services in that namespace. A Namespace that is
+	// seen after (or removed before) its Services counts as a change from (to) "no annotation": the Service and
+	// Namespace informers are not synchronized, so a Service may have been converted without its namespace.
 	registerHandlers[*v1.Namespace](
 		c,
 		c.namespaces,
 		"Namespaces-TrafficDistribution",
 		func(old *v1.Namespace, cur *v1.Namespace, event model.Event) error {
-			if event == model.EventUpdate && old != nil {
-				oldTrafficDist := old.Annotations[annotation.NetworkingTrafficDistribution.Name]
-				curTrafficDist := cur.Annotations[annotation.NetworkingTrafficDistribution.Name]
-				if oldTrafficDist != curTrafficDist {
-					c.reprocessServicesInNamespace(cur.Name)
+			var oldTrafficDist, curTrafficDist string
+			switch event {
+			case model.EventAdd:
+				curTrafficDist = cur.Annotations[annotation.NetworkingTrafficDistribution.Name]
+			case model.EventUpdate:
+				if old == nil {
+					return nil
 				}
+				oldTrafficDist = old.Annotations[annotation.NetworkingTrafficDistribution.Name]
+				curTrafficDist = cur.Annotations[annotation.NetworkingTrafficDistribution.Name]
+			case model.EventDelete:
+				oldTrafficDist = cur.Annotations[annotation.NetworkingTrafficDistribution.Name]
+			}
+			if oldTrafficDist != curTrafficDist {
+				c.reprocessServicesInNamespace(cur.Name)
 			}
 			return nil
 		},
